@@ -8,6 +8,9 @@ mod c03;
 mod c04;
 mod c14;
 mod c20;
+mod cval;
+mod proj;
+mod rval;
 mod earley;
 mod gen;
 mod libx;
@@ -90,6 +93,12 @@ fn main() {
         "C02" => c02::run(&ctx),
         "C03" => c03::run(&ctx),
         "C04" => c04::run(&ctx),
+        "C05" => cval::run_c05(&ctx),
+        "C06" => cval::run_c06(&ctx),
+        "C07" => cval::run_c07(&ctx),
+        "C08" => cval::run_c08(&ctx),
+        "C09" => cval::run_c09(&ctx),
+        "C10" => cval::run_c10(&ctx),
         "C14" => c14::run(&ctx),
         "C20" => c20::run(&ctx),
         _ => {
